@@ -2,7 +2,7 @@
 import ast
 
 from vstat.loader import AnalysisError
-from vstat.terms import builder, show, SELF, NONE, G, alts, walk, mentions, phi, strip_none, FULL
+from vstat.terms import CMP, builder, show, SELF, NONE, G, alts, walk, mentions, phi, strip_none, FULL
 from vstat.guards import path_conditions
 from vstat.cfg import cfg_of, EXIT
 from vstat.dataflow import rd_of
@@ -93,7 +93,7 @@ def sphere_rule(prog, rep, fn, b, beta):
         raise AnalysisError(f"{q}: expected self.sphere_points = <local>")
     from vstat.terms import guarded_alts
     bg = builder(prog, fn, inline=True, guarded=True)
-    two = ("cmp", "==", nd, ("const", 2))
+    two = CMP("==", nd, ("const", 2))
     seen = {"circle": False, "nsphere": False}
     for pc, t in guarded_alts(bg.term(sp_store[0].value, sp_store[0])):
         pc = tuple(pc) + tuple(pcs.of(sp_store[0]))
@@ -197,10 +197,10 @@ def run(prog, rep):
             rep.check(okshape, "C01.result", f"{fn.qualname}:shape", fn.where(), "matrix is (n_points, n_dim)",
                       f"the filled matrix must have n_points rows and n_dim columns; allocation {show(base)[:100]}")
         if kind == "iform":
-            tm_rule(prog, rep, fn, b, pmat)
-    nsphere(prog, rep)
+            rep.part(tm_rule, prog, rep, fn, b, pmat)
+    rep.part(nsphere, prog, rep)
     for cls in ("IFORMContour", "ISORMContour"):
-        ctor_stores(prog, rep, "C01.ctor", f"{CONT}.{cls}", ["model", "alpha", "n_points"])
+        rep.part(ctor_stores, prog, rep, "C01.ctor", f"{CONT}.{cls}", ["model", "alpha", "n_points"])
     rep.expect_min("C01.ctor", 4)
     rep.expect_min("C01.beta", 2)
     rep.expect_min("C01.sphere", 4)
@@ -208,7 +208,8 @@ def run(prog, rep):
     rep.expect_min("C01.tm", 2)
     rep.expect_min("C01.result", 4)
     rep.expect_min("C01.nsphere", 7)
-
+    from .purity import row as _stateless_row
+    rep.part(_stateless_row, prog, rep, "C01", 4)
 
 def tm_rule(prog, rep, fn, b, pmat):
     q = fn.qualname
@@ -235,7 +236,7 @@ def tm_rule(prog, rep, fn, b, pmat):
             else:
                 found["cond"] = True
                 g = args[2] if len(args) > 2 else kw.get("given")
-                want = ("col", s.base, ("not", ("cmp", "==", ("call", G("numpy.arange"), (nd,), ()), s.K)))
+                want = ("col", s.base, ("not", CMP("==", ("call", G("numpy.arange"), (nd,), ()), s.K)))
                 if g != want:
                     probs.append(f"given must be all other columns of the matrix being filled: {show(want)[:90]}; found {show(g)[:90] if g else None}")
                 rep.check(not probs, "C01.tm", f"{q}:tm:conditional", site, "coordinates[:, i] = model.conditional_icdf(p[:, i], i, coordinates[:, arange(n_dim) != i])", "; ".join(probs))
